@@ -1,7 +1,7 @@
 """C16 - codecs and conversions: encoder/decoder table agreement, representation-independent rendering (static clauses)."""
 import re
 from .core import (CheckError, find_match, arm_region, pat_str, strip_ref, origins, only_when, pat_paths,
-                   Registry, op_local, bool_switches)
+                   Registry, op_local, bool_switches, fmt_templates)
 from .census import Census
 from . import c14_tables as T
 from .c14 import match_table
@@ -69,6 +69,20 @@ def run(F, rep, tier):
         cls = [F.body(c) for c in F.closures_of(he.path)]
         if any('new_lower_hex' in c.target for b_ in cls + [he] for c in b_.calls):
             rep.ok('R16.1', 'hex_encode', 'LowerHex per byte')
+            # the decoder reads exactly two digits per byte (chunks(2)): the encoder's placeholder must be two wide, zero filled
+            for b_ in cls + [he]:
+                if not any('new_lower_hex' in c.target for c in b_.calls):
+                    continue
+                for c, tpl in fmt_templates(b_):
+                    if tpl is None:
+                        rep.error('R16.1', 'hex_encode: format template of %s not decodable' % b_.path)
+                        continue
+                    phs = [d for k, d in tpl if k == 'arg']
+                    lits = [d for k, d in tpl if k == 'lit']
+                    if len(phs) == 1 and not lits and phs[0]['width'] == 2 and phs[0]['zero_pad'] and not phs[0]['width_indirect'] and not phs[0]['alternate']:
+                        rep.ok('R16.1', 'hex_encode width', '{:02x}: two digits per byte, matching hex_decode\'s chunks(2)')
+                    else:
+                        rep.viol('R16.1', 'hex_encode|width', 'hex_encode formats a byte with template %s: not exactly two zero-filled hex digits, so bytes below 0x10 shift every later digit and hex_decode(hex_encode(b)) != b' % (tpl,), c.loc())
         else:
             rep.viol('R16.1', 'hex_encode|format', 'hex_encode does not format bytes with LowerHex', he.loc(0))
     except CheckError as e:
